@@ -762,7 +762,26 @@ func (fr *Frame) next(x *ssa.Next, st *State) {
 		ik := fx.eng.iterKey(rg)
 		n := fx.ctx.Define("iter.n", Add(fx.heapGet(st, ik, SInt), Int(1)))
 		st.heap[ik] = n
-		if !fr.loopWritesMapOf(x, ks) {
+		// the enumeration facts hold while the loop leaves the iterated map alone: either the loop writes no map of
+		// this key sort at all, or (guard) this map's key set and size are what they were when the loop was entered
+		guard := True
+		usable := !fr.loopWritesMapOf(x, ks)
+		if !usable {
+			if pre := loopPres[fr][x.Block().Index]; pre != nil {
+				domS := ArraySort(ks, SBool)
+				dk, _, _, _ := mapKeys(mt)
+				nowD := Select(fx.heapGet(st, dk, ArraySort(SInt, domS)), m, domS)
+				preD := Select(fx.heapGet(pre, dk, ArraySort(SInt, domS)), m, domS)
+				guard = fx.ctx.Define("iter.same", And(Eq(nowD, preD), Eq(fx.mapLen(st, m), fx.mapLen(pre, m))))
+				usable = true
+			}
+		}
+		if usable {
+			saved := st.pc
+			if guard.S != "true" {
+				st = st.clone()
+				st.pc = fx.ctx.Define("pc", And(saved, guard))
+			}
 			f := fx.ctx.DeclFun("iterkey."+string(ks), []Sort{SInt, SInt}, ks)
 			inv := fx.ctx.DeclFun("iterkeyinv."+string(ks), []Sort{SInt, ks}, SInt)
 			fx.ctx.RawOnce("iterkey-inj."+string(ks), fmt.Sprintf("(assert (forall ((m Int) (n Int)) (! (= (%s m (%s m n)) n) :pattern ((%s m n)))))", inv, f, f))
@@ -770,6 +789,18 @@ func (fr *Frame) next(x *ssa.Next, st *State) {
 			fx.assume(st, And(Ge(n, Int(0)), Le(n, Ite(Eq(m, Nil), Int(0), ln))))
 			fx.assume(st, Eq(ok, Lt(n, Ite(Eq(m, Nil), Int(0), ln))))
 			fx.assume(st, Implies(ok, Eq(k, Term{"(" + f + " " + m.S + " " + n.S + ")", ks})))
+			// the enumeration is onto the key set: every key is handed out at its own position below len(m). Stated
+			// only where the contract speaks of iterkey — elsewhere nothing can use it, and its instances slow the
+			// solvers down on unrelated goals.
+			if !fx.contractUsesIterKey() {
+				fr.set(x, Val{Tuple: []Val{tv(ok), tv(k), tv(v)}, Known: true})
+				return
+			}
+			fx.ctx.nfresh++
+			qk := smtIdent(fmt.Sprintf("q!ek!%d", fx.ctx.nfresh))
+			dom := fx.mapDom(st, mt, m)
+			fx.assume(st, Term{fmt.Sprintf("(forall ((%s %s)) (=> (and (not (= %s 0)) (select %s %s)) (and (<= 0 (%s %s %s)) (< (%s %s %s) %s) (= (%s %s (%s %s %s)) %s))))",
+				qk, ks, m.S, dom.S, qk, inv, m.S, qk, inv, m.S, qk, ln.S, f, m.S, inv, m.S, qk, qk), SBool})
 		}
 	}
 	fr.set(x, Val{Tuple: []Val{tv(ok), tv(k), tv(v)}, Known: true})
@@ -1020,4 +1051,79 @@ func (fr *Frame) loopWritesMapOf(x *ssa.Next, ks Sort) bool {
 	}
 	_, ok := keys["MDom."+string(ks)]
 	return ok
+}
+
+// contractUsesIterKey: some clause of the function's contract mentions iterkey, directly or through a spec function.
+func (fx *FnExec) contractUsesIterKey() bool {
+	if fx.iterKeyUse != 0 {
+		return fx.iterKeyUse == 1
+	}
+	fx.iterKeyUse = 2
+	ct := fx.contract
+	if ct == nil {
+		return false
+	}
+	// spec functions that reach iterkey
+	reach := map[string]bool{}
+	for changed := true; changed; {
+		changed = false
+		for name, sp := range fx.eng.contracts.Specs {
+			if reach[name] {
+				continue
+			}
+			hit := strings.Contains(sp.Src, "iterkey(")
+			for r := range reach {
+				if strings.Contains(sp.Src, specBase(r)+"(") {
+					hit = true
+				}
+			}
+			if hit {
+				reach[name] = true
+				changed = true
+			}
+		}
+	}
+	uses := func(src string) bool {
+		if strings.Contains(src, "iterkey(") {
+			return true
+		}
+		for r := range reach {
+			if strings.Contains(src, specBase(r)+"(") {
+				return true
+			}
+		}
+		return false
+	}
+	var srcs []string
+	for _, c := range ct.Requires {
+		srcs = append(srcs, c.Src)
+	}
+	for _, c := range ct.Ensures {
+		srcs = append(srcs, c.Src)
+	}
+	for _, l := range ct.Loops {
+		for _, c := range l.Inv {
+			srcs = append(srcs, c.Src)
+		}
+		for _, c := range l.Step {
+			srcs = append(srcs, c.Src)
+		}
+	}
+	for _, a := range ct.Asserts {
+		srcs = append(srcs, a.Clause.Src)
+	}
+	for _, s := range srcs {
+		if uses(s) {
+			fx.iterKeyUse = 1
+			return true
+		}
+	}
+	return false
+}
+
+func specBase(key string) string {
+	if i := strings.LastIndex(key, "::"); i >= 0 {
+		return key[i+2:]
+	}
+	return key
 }
